@@ -430,6 +430,16 @@ WRAPPERS = {
 }
 
 
+# connectives that must leave their operand without any effect: the condition is the Python constant that skips it
+SKIPPING = {
+    "implied_by_false": lambda mk: ps.Implies(name="wrap", condition=False, list_of_constraints=[mk("x1")]),
+    "else_branch_of_true": lambda mk: ps.IfThenElse(name="wrap", condition=True, then_list_of_constraints=[z3.BoolVal(True)], else_list_of_constraints=[mk("x1")]),
+    "then_branch_of_false": lambda mk: ps.IfThenElse(name="wrap", condition=False, then_list_of_constraints=[mk("x1")], else_list_of_constraints=[z3.BoolVal(True)]),
+    "alternative_to_true": lambda mk: ps.Or(name="wrap", list_of_constraints=[mk("x1"), z3.BoolVal(True)]),
+}
+WRAPPERS.update(SKIPPING)
+
+
 def wrapped_shape(wrapper, cname):
     """a constraint used as the (only effective) operand of a connective in positive position means what it means
     when declared on its own - for every constraint class (twin builds, both directions)"""
@@ -440,8 +450,8 @@ def wrapped_shape(wrapper, cname):
         e = c18._env()
         if wrapped:
             WRAPPERS[wrapper](lambda nm: _make_instance(cname, e, nm))
-        else:
-            _make_instance(cname, e, "x1")
+        elif wrapper not in SKIPPING:
+            _make_instance(cname, e, "x1")  # (a skipping connective is compared with the problem without the rule)
 
     def build(P):
         pb1 = ps.SchedulingProblem(name="plain", horizon=12)
@@ -565,7 +575,7 @@ def shapes(tier):
     for cname in _c05._constraint_classes():
         if cname in ("ForceApplyNOptionalConstraints",):
             continue  # (its operands must be optional constraints, themselves outside the connective)
-        for wrapper in (WRAPPERS if tier == "thorough" else ("or_of_two_copies", "then_branch_of_true")):
+        for wrapper in (WRAPPERS if tier == "thorough" else ("or_of_two_copies", "then_branch_of_true", "implied_by_false", "else_branch_of_true")):
             if wrapper == "or_of_two_copies" and cname in ("ResourceTasksDistance", "ResourceNonDelay") and tier != "thorough":
                 continue  # two copies of a sort network: no positional witness, the quantified query takes about a minute
             out.append(wrapped_shape(wrapper, cname))
